@@ -136,12 +136,23 @@ def instantiate_type(
             # replace it with the instantiated name.
             namespace_idx = ctype.typename.namespaces.index('This')
             ctype.typename.namespaces[namespace_idx] = cpp_typename.name
-        # Else check if it is in the template namespace, e.g vector<This::Value>
+        # Else check if it is in the template arguments (at any depth),
+        # e.g vector<This::Value> or vector<This>
         else:
-            for idx, instantiation in enumerate(ctype.typename.instantiations):
-                if 'This' in instantiation.namespaces:
-                    ctype.typename.instantiations[idx].namespaces = \
-                        cpp_typename.namespaces + [cpp_typename.name]
+            def instantiate_this(typename: parser.Typename):
+                for idx, instantiation in enumerate(typename.instantiations):
+                    if 'This' in instantiation.namespaces:
+                        typename.instantiations[idx].namespaces = \
+                            cpp_typename.namespaces + [cpp_typename.name]
+                    elif instantiation.name == 'This':
+                        instantiation.namespaces = cpp_typename.namespaces
+                        instantiation.name = cpp_typename.name
+                        instantiation.instantiations = \
+                            cpp_typename.instantiations
+                    else:
+                        instantiate_this(instantiation)
+
+            instantiate_this(ctype.typename)
         return ctype
 
     else:
